@@ -598,3 +598,17 @@ func ruleVersStar(p *Prog, r *Report) {
 func init() {
 	register("C04", "", ruleVersStar)
 }
+
+// C04 relies on the normaliser handing every distinct constraint on to the interval grouping: a
+// de-duplication keyed on anything coarser than the constraint text drops bounds and exclusions (two
+// deb versions that differ after a '+'), and with them whole intervals of the union. The two
+// R-VERS-NORM-SORT obligations of C16 (de-duplication key, sort before extraction) are taken over.
+func ruleVersNormForC04(p *Prog, r *Report) {
+	runImports(p, r, []importSpec{{"vers", []ruleFn{ruleVersNormInner}, func(rule, key string) bool {
+		return rule == "R-VERS-NORM-SORT"
+	}, map[string]int{"R-VERS-NORM-SORT": 2}}})
+}
+
+func init() {
+	register("C04", "", ruleVersNormForC04)
+}
